@@ -29,7 +29,7 @@
      - the iteration order of the storage trie is the order of the id list [ids] of the environment
        (the harness passes the ids in the byte order of their keys);
      - Float64ToBigInt(float64(stake)) = stake * 10^18 (exact below 2^53 tokens);
-     - block rewards (RewardCalculator) are not part of this model (C06 has them). *)
+     - the amounts of the block rewards enter as an input list of the block (the formula: KeyModel.v). *)
 From Coq Require Import List ZArith NArith Lia Bool.
 Import ListNotations.
 Local Open Scope Z_scope.
@@ -260,19 +260,24 @@ Fixpoint credit_due (h : N) (l : list (N * N * Z)) (b : bals) : bals * list (N *
     if N.eqb h' h then (add_bal b' a v, r') else (b', (h', a, v) :: r')
   end.
 
-(* VMExecutor.after() without rewards, then IntermediateRoot: RefundManager.Add(context refunds),
-   CheckAndMove(height), and the flush of the dirty storage into the trie *)
-Definition end_block (h : N) (s : st) : st :=
-  let '(b, l) := credit_due h (pend s ++ esc s) (bal s) in
+(* VMExecutor.after(), then IntermediateRoot: RefundManager.Add(context refunds), RefundManager.Add(the block's
+   rewards rw - what RewardCalculator.CalculateReward returned: height, beneficiary, amount; the reward formula is
+   specified in KeyModel.v / checked by the harness), CheckAndMove(height), and the flush of the dirty storage
+   into the trie *)
+Definition end_block (h : N) (rw : list (N * N * Z)) (s : st) : st :=
+  let '(b, l) := credit_due h (pend s ++ rw ++ esc s) (bal s) in
   {| cur := cur s; trie := fun k i => s_info (cur s k i); bal := b; pend := []; esc := l; burned := burned s |}.
 
-Definition run_block (e : env) (h : N) (ts : list tx) (s : st) : st * list res :=
-  let '(s1, rs) := run_txs e h ts s in (end_block h s1, rs).
+Definition run_block (e : env) (h : N) (ts : list tx) (rw : list (N * N * Z)) (s : st) : st * list res :=
+  let '(s1, rs) := run_txs e h ts s in (end_block h rw s1, rs).
 
-Fixpoint run_chain (e : env) (bs : list (N * list tx)) (s : st) : st :=
+(* a block: height, transactions, rewards scheduled by its after() phase *)
+Definition block := (N * list tx * list (N * N * Z))%type.
+
+Fixpoint run_chain (e : env) (bs : list block) (s : st) : st :=
   match bs with
   | [] => s
-  | (h, ts) :: r => run_chain e r (fst (run_block e h ts s))
+  | (h, ts, rw) :: r => run_chain e r (fst (run_block e h ts rw s))
   end.
 
 (* ---- measures ---- *)
